@@ -72,6 +72,8 @@ def enc(o: t.Any) -> t.Any:
     from . import usertypes
     if isinstance(o, enum.Enum) and type(o).__name__ in usertypes.ENUMS:
         return {'$e': [type(o).__name__, o.name]}
+    if type(o).__module__ == 'numpy' and type(o).__name__ == 'ndarray':
+        return {'$nd': [str(o.dtype), enc(o.tolist())]}
     if type(o) in usertypes.SUBCLASSES.values():
         base = next(b for (b, c) in usertypes.SUBCLASSES.items() if c is type(o))
         return {'$u': [base, enc({'int': int, 'float': float, 'str': str, 'bytes': bytes}[base](o))]}
@@ -125,6 +127,9 @@ def dec(j: t.Any) -> t.Any:
         if k == '$e':
             from . import usertypes
             return usertypes.ENUMS[v[0]][v[1]]
+        if k == '$nd':
+            import numpy
+            return numpy.array(dec(v[1]), dtype=v[0])
         if k == '$u':
             from . import usertypes
             return usertypes.SUBCLASSES[v[0]](dec(v[1]))
